@@ -149,7 +149,6 @@ func H_C16_step() {
 	case 6:
 		VRunExit(p, tev)
 	}
-	_ = err
 	vReach("stepped")
 	if step == 6 {
 		vAssert(numUnchoking == others, "a peer that has exited is no longer counted as unchoked")
@@ -158,6 +157,11 @@ func H_C16_step() {
 	vAssert(int32(p.amUnchoking)-int32(unBefore) == numUnchoking-numBefore, "the global count of unchoked peers moves with the peer's own flag")
 	vAssert(numUnchoking >= 0, "the count never goes negative")
 	vAssert(p.amUnchoking <= 1, "flag is 0 or 1")
+	if err != nil {
+		// the peer is being disconnected: what is left in its queue no longer matters
+		vReach("dropped")
+		return
+	}
 	vAssert(vImp(p.amUnchoking == 0, len(p.requested) == 0), "choking a peer empties its upload queue")
 	vAssert(vImp(p.Info == nil, len(p.requested) == 0), "nothing is queued without metadata")
 	vAssert(len(p.requested) <= 250, "the upload queue is bounded (250)")
